@@ -262,6 +262,8 @@ def _handler_rule(chk):
     """_ReconnectionHandler.run: the connection try_reconnect() returned is closed on every path that leaves run() (the host handler's probe
     connection; for the control handler on_reconnection has taken what it needs), including the cancelled one"""
     chk.rule('C45.handler', '_ReconnectionHandler.run closes the connection returned by try_reconnect() on every path out of run(), also when the handler was cancelled meanwhile')
+    chk.rule('C45.ctor', 'a pool whose constructor fails is never registered with the session: the constructor closes the connections it opened (shared with C12)')
+    chk.borrow('C12', {'C12.ctor': 'C45.ctor'}, 'the connection was opened on behalf of the session, but no shutdown - the pool\'s or the session\'s - ever sees it')
     pool = chk.repo.mod('cassandra/pool.py')
     run = pool.func('_ReconnectionHandler.run')
     g = CFG(run)
